@@ -73,6 +73,16 @@ func TestMain(m *testing.M) {
 		_, err := checkLax(c)
 		return err
 	})
+	for _, name := range []string{"schnorr_nonce_table", "schnorr_volume"} {
+		reg(name, func(raw json.RawMessage) error {
+			var c nonceCase
+			if err := json.Unmarshal(raw, &c); err != nil {
+				return err
+			}
+			_, err := checkNonce(c)
+			return err
+		})
+	}
 	reg("concurrent", func(raw json.RawMessage) error {
 		var c concCase
 		if err := json.Unmarshal(raw, &c); err != nil {
